@@ -466,6 +466,8 @@ def check_c08(ctx):
         mcs += [(('random', 9, 3, 4000, True), True, False, 'rand9k_cont_full'), (('random', 16, 4, 400, True), False, False, 'rand16_strict_full')]
     rep = run_batches(ctx, batches, preds, mcs, nontrivial=lambda o, v: v['nbad'] > 0 or len(o['failurl']) > 0,
                       sample=lambda o, v: v['nbad'] > 0)
+    # sequences of calls through one caller cache (refused and undecodable documents among them): an error is an error every time
+    cache_sequences(ctx, rep)
     return rep.finish(
         'model_checking',
         'TLC enumerates every reference graph over N<=3 nodes with any subset of $ref targets removed (dangling refs; the worker '
